@@ -25,6 +25,13 @@ CHECKS = {
   text="Solver verdicts for (a) the terms predicate: mintable() succeeds exactly when the statement's window/cap conditions hold for every Terms, block, mint count and height; (b) the counter: RuneUpdater::mint grants a mint exactly when the stored entry's terms allow it, returns the set amount, stores the entry once with mints+1 <= cap and nothing else changed, and writes nothing for an absent rune or closed mint; (c) ordering: a transaction that mints the rune it etches gets nothing. 'A cenotaph mint still counts and is burned' is the C09 cenotaph scenario.",
   design_ref="DESIGN.md §3 C10",
   note="heights <= u32::MAX; the rune-entry table is a stub returning an arbitrary entry; 'etched later in the same block' across transactions is block-level redb code and is not covered"),
+ "C36": dict(
+  engine="E2-mir2smt (lift)",
+  technique="path-wise symbolic execution (z3, cvc5 cross-check) of the MIR of the real Settings::merge / or / or_defaults / default_data_dir (text extracted from src/settings.rs at run time) against a statement-level precedence specification; sources, OS answers and the file system are symbolic stubs; native replay",
+  category="model_checking",
+  text="Solver verdict that, for every supplied value (equal or conflicting) under each checked presence pattern of flags/environment/config file over all 27 settings, the merged Settings take each field from the highest-precedence source that supplies it and otherwise the built-in default; switches are the OR of all sources; hidden lists are the union; the config file consulted is the named one, else ord.yaml in the config dir / data dir / default data dir only if it exists; a username without password is refused.",
+  design_ref="DESIGN.md §3 C36",
+  note="Settings::from_options / from_env (clap and ORD_* parsing into a Settings) and YAML parsing are stubs returning arbitrary Settings, so a wrong field mapping inside them is not detected; presence patterns are a stated finite set (16+6 quick, +40 thorough), values are unrestricted"),
  "C29": dict(
   engine="E2-mir2smt",
   technique="path-wise symbolic execution of the rustc MIR of crates/ordinals into SMT (z3 Int theory, cvc5 cross-check), one query per path per claim; translator validated against native execution each run; counterexamples replayed natively",
@@ -115,7 +122,6 @@ NOT_APPLICABLE = {
  "C24": "PSBT acceptance signs through the node RPC",
  "C28": "brotli and minicbor decoders are input-length loops over untrusted bytes (weak target for bounded symbolic execution); the properties codec was not attempted",
  "C30": "the numeric halves are decided elsewhere (C29: sat <-> height/offset/degree; C31: degree/decimal/percentile parsers accept only what they denote) but printing is core::fmt digit rendering and f64 formatting (percentile), and names are 11-letter base-26 strings on which z3/cvc5 do not finish (see C32 bounds); no honest print-then-parse verdict over all sats",
- "C36": "Settings::merge needs clap/serde_yaml/env machinery inside the shim; not attempted",
  "C37": "event streams of whole indexing histories through tokio channels",
 }
 
